@@ -79,67 +79,293 @@ theorem firstGet_flatten (bs : List (List (ObjId × Obj))) (id : ObjId) :
     simp only [List.flatten_cons, firstGet_append, List.findSome?_cons, ih]
     cases firstGet b id <;> simp
 
-/-- number of blocks that have `id` as a member -/
-def holders (bs : List (List (ObjId × Obj))) (id : ObjId) : Nat :=
-  (bs.filter fun b => (firstGet b id).isSome).length
 
-theorem findSome_perm {bs₁ bs₂ : List (List (ObjId × Obj))} (hp : bs₁.Perm bs₂) (id : ObjId) :
-    holders bs₁ id ≤ 1 →
-    bs₁.findSome? (fun b => firstGet b id) = bs₂.findSome? (fun b => firstGet b id) := by
-  induction hp with
-  | nil => intro _; rfl
-  | cons x _ ih =>
-    intro h
-    simp only [List.findSome?_cons]
-    cases hx : firstGet x id with
-    | some v => rfl
-    | none =>
-      apply ih
-      simpa [holders, List.filter_cons, hx] using h
-  | swap x y l =>
-    intro h
-    simp only [List.findSome?_cons]
-    cases hx : firstGet x id <;> cases hy : firstGet y id <;> try rfl
-    -- both hold the id: contradicts `holders ≤ 1`
-    simp [holders, List.filter_cons, hx, hy] at h
-  | trans hp1 _ ih1 ih2 =>
-    intro h
-    rw [ih1 h]
-    apply ih2
-    have : holders _ id = holders _ id := (hp1.filter _).length_eq
-    unfold holders at *
-    omega
+/-! ### sorting by container number -/
 
-/-- no object number is a member of two containers -/
-def NoCrossDup (blocks : List Block) : Prop := ∀ id, holders (blocks.map (·.2)) id ≤ 1
+theorem insertBlockSorted_perm (b : Block) (l : List Block) : (insertBlockSorted b l).Perm (b :: l) := by
+  induction l with
+  | nil => simp [insertBlockSorted]
+  | cons c rest ih =>
+    unfold insertBlockSorted
+    split
+    · exact List.Perm.refl _
+    · exact (List.Perm.cons c ih).trans (List.Perm.swap b c rest)
 
-/-- **Schedule independence.** If no object number is a member of two object-stream containers,
-then for EVERY permutation of the per-container blocks — every completion order of the worker
-threads — the merged document answers every lookup identically; the sequential reader's order
-is one of them. -/
-theorem merge_perm_invariant (os : LObjects) (blocks₁ blocks₂ : List Block)
-    (hp : blocks₁.Perm blocks₂) (hd : NoCrossDup blocks₁) (id : ObjId) :
-    (mergeBlocks os blocks₁).get id = (mergeBlocks os blocks₂).get id := by
-  rw [mergeBlocks_get, mergeBlocks_get, firstGet_flatten, firstGet_flatten]
-  rw [findSome_perm (hp.map (·.2)) id (hd id)]
+theorem sortBlocks_perm (bs : List Block) : (sortBlocks bs).Perm bs := by
+  induction bs with
+  | nil => exact List.Perm.refl _
+  | cons b rest ih =>
+    show (insertBlockSorted b (sortBlocks rest)).Perm (b :: rest)
+    exact (insertBlockSorted_perm b _).trans (List.Perm.cons b ih)
 
-example : NoCrossDup [((9, 0), [((3, 0), Obj.int 1), ((4, 0), Obj.null)]), ((12, 0), [((5, 0), Obj.int 2)])] := by
-  intro id
-  by_cases h3 : ((3, 0) : ObjId) = id
-  · subst h3; decide
-  · by_cases h4 : ((4, 0) : ObjId) = id
-    · subst h4; decide
-    · by_cases h5 : ((5, 0) : ObjId) = id
-      · subst h5; decide
-      · simp [holders, List.filter_cons, firstGet, h3, h4, h5]
+def keyLe (a b : Block) : Prop := a.1 ≤ b.1
 
-/-- counter-witness (finding F-C08-a): object 3 is a member of containers 9 and 12; merging the
-blocks in the two possible orders gives two different documents. -/
-theorem merge_order_dependent :
-    let b9 : Block := ((9, 0), [((3, 0), Obj.int 1)])
-    let b12 : Block := ((12, 0), [((3, 0), Obj.int 2)])
+theorem insertBlockSorted_pairwise (b : Block) (l : List Block) (h : l.Pairwise keyLe) :
+    (insertBlockSorted b l).Pairwise keyLe := by
+  induction l with
+  | nil => simp [insertBlockSorted]
+  | cons c rest ih =>
+    unfold insertBlockSorted
+    split
+    · rename_i hle
+      rw [List.pairwise_cons]
+      refine ⟨?_, h⟩
+      intro d hd
+      rw [List.mem_cons] at hd
+      rcases hd with rfl | hd
+      · exact hle
+      · have := (List.pairwise_cons.mp h).1 d hd
+        unfold keyLe at *; omega
+    · rename_i hnle
+      rw [List.pairwise_cons] at h ⊢
+      refine ⟨?_, ih h.2⟩
+      intro d hd
+      have hd' := (insertBlockSorted_perm b rest).subset hd
+      rw [List.mem_cons] at hd'
+      rcases hd' with rfl | hd'
+      · unfold keyLe; omega
+      · exact h.1 d hd'
+
+theorem sortBlocks_pairwise (bs : List Block) : (sortBlocks bs).Pairwise keyLe := by
+  induction bs with
+  | nil => exact List.Pairwise.nil
+  | cons b rest ih => exact insertBlockSorted_pairwise b _ ih
+
+/-- the container numbers of the blocks are pairwise different (they are keys of the
+cross-reference table, see `fromStm_keys_nodup`) -/
+def DistinctKeys (bs : List Block) : Prop := (bs.map (·.1)).Nodup
+
+theorem eq_of_key_eq {bs : List Block} (hd : DistinctKeys bs) {a b : Block}
+    (ha : a ∈ bs) (hb : b ∈ bs) (hk : a.1 = b.1) : a = b := by
+  induction bs with
+  | nil => cases ha
+  | cons c rest ih =>
+    unfold DistinctKeys at hd
+    rw [List.map_cons, List.nodup_cons] at hd
+    rw [List.mem_cons] at ha hb
+    rcases ha with rfl | ha <;> rcases hb with rfl | hb
+    · rfl
+    · exact absurd (List.mem_map.mpr ⟨b, hb, hk.symm⟩) hd.1
+    · exact absurd (List.mem_map.mpr ⟨a, ha, hk⟩) hd.1
+    · exact ih hd.2 ha hb
+
+/-- sorting erases the arrival order -/
+theorem sortBlocks_eq_of_perm {b₁ b₂ : List Block} (hp : b₁.Perm b₂) (hd : DistinctKeys b₁) :
+    sortBlocks b₁ = sortBlocks b₂ := by
+  apply List.Perm.eq_of_pairwise (le := keyLe) _ (sortBlocks_pairwise b₁) (sortBlocks_pairwise b₂)
+    ((sortBlocks_perm b₁).trans (hp.trans (sortBlocks_perm b₂).symm))
+  intro a b ha hb hab hba
+  have ha' : a ∈ b₁ := (sortBlocks_perm b₁).subset ha
+  have hb' : b ∈ b₁ := hp.symm.subset ((sortBlocks_perm b₂).subset hb)
+  apply eq_of_key_eq hd ha' hb'
+  unfold keyLe at hab hba; omega
+
+/-- **Schedule independence of the merge.** For EVERY permutation of the per-container blocks —
+every completion order of the worker threads — the merged object list is the same. -/
+theorem merge_schedule_independent (x : XTable) (os : LObjects) (b₁ b₂ : List Block)
+    (hp : b₁.Perm b₂) (hd : DistinctKeys b₁) :
+    mergeBlocksX x os b₁ = mergeBlocksX x os b₂ := by
+  unfold mergeBlocksX
+  rw [sortBlocks_eq_of_perm hp hd]
+
+example : DistinctKeys [(9, [((3, 0), Obj.int 1), ((4, 0), Obj.null)]), (12, [((3, 0), Obj.int 2)])] := by
+  unfold DistinctKeys; decide
+
+/-- why the sort is needed (finding F-C08-a, repaired by lopdf commit 943080b): object 3 is a
+member of containers 9 and 12; an `or_insert` merge in arrival order gives two different
+documents for the two schedules. -/
+theorem unsorted_merge_order_dependent :
+    let b9 : Block := (9, [((3, 0), Obj.int 1)])
+    let b12 : Block := (12, [((3, 0), Obj.int 2)])
     (match (mergeBlocks [] [b9, b12]).get (3, 0) with | some (.plain (.int i)) => i | _ => 0) = 1 ∧
     (match (mergeBlocks [] [b12, b9]).get (3, 0) with | some (.plain (.int i)) => i | _ => 0) = 2 := by
   decide
+
+/-! ### the level of `Reader::read` -/
+
+theorem insertSorted_mem (k : Nat) (v : XEntry) (l : XTable) (a : Nat) :
+    a ∈ (insertSorted k v l).map (·.1) → a = k ∨ a ∈ l.map (·.1) := by
+  induction l with
+  | nil => simp [insertSorted]
+  | cons p rest ih =>
+    obtain ⟨k', v'⟩ := p
+    unfold insertSorted
+    split
+    · intro h; simpa using h
+    · split
+      · intro h; simp at h ⊢; rcases h with h | h
+        · exact Or.inl h
+        · exact Or.inr (Or.inr h)
+      · intro h
+        simp only [List.map_cons, List.mem_cons] at h ⊢
+        rcases h with h | h
+        · exact Or.inr (Or.inl h)
+        · rcases ih h with h | h
+          · exact Or.inl h
+          · exact Or.inr (Or.inr h)
+
+theorem insertSorted_sorted (k : Nat) (v : XEntry) (l : XTable)
+    (h : (l.map (·.1)).Pairwise (· < ·)) : ((insertSorted k v l).map (·.1)).Pairwise (· < ·) := by
+  induction l with
+  | nil => simp [insertSorted]
+  | cons p rest ih =>
+    obtain ⟨k', v'⟩ := p
+    simp only [List.map_cons, List.pairwise_cons] at h
+    unfold insertSorted
+    split
+    · rename_i hlt
+      simp only [List.map_cons, List.pairwise_cons]
+      refine ⟨?_, h⟩
+      intro a ha
+      rw [List.mem_cons] at ha
+      rcases ha with rfl | ha
+      · exact hlt
+      · have := h.1 a ha; omega
+    · split
+      · rename_i heq
+        subst heq
+        simp only [List.map_cons, List.pairwise_cons]
+        exact h
+      · simp only [List.map_cons, List.pairwise_cons]
+        refine ⟨?_, ih h.2⟩
+        intro a ha
+        rcases insertSorted_mem k v rest a ha with rfl | ha
+        · omega
+        · exact h.1 a ha
+
+/-- the keys of the cross-reference table, in iteration order, are strictly increasing -/
+theorem sorted_keys_lt (x : XTable) : ((x.sorted).map (·.1)).Pairwise (· < ·) := by
+  unfold XTable.sorted
+  induction x with
+  | nil => simp
+  | cons p rest ih => obtain ⟨k, v⟩ := p; exact insertSorted_sorted k v _ ih
+
+theorem loadStep_shape (buf : Bytes) (x : XTable) (n : Nat) (os : LObjects) (fs : List Block) (e : Nat × XEntry) :
+    (∃ os2, loadStep buf x n (.ok (os, fs)) e = .ok (os2, fs)) ∨
+    (∃ os2 objs, loadStep buf x n (.ok (os, fs)) e = .ok (os2, fs ++ [(e.1, objs)])) ∨
+    (∀ p, loadStep buf x n (.ok (os, fs)) e ≠ .ok p) := by
+  simp only [loadStep]
+  repeat' split
+  all_goals first
+    | exact Or.inl ⟨_, rfl⟩
+    | exact Or.inr (Or.inl ⟨_, _, rfl⟩)
+    | exact Or.inr (Or.inr (fun p h => by cases h))
+
+theorem loadStep_notok (buf : Bytes) (x : XTable) (n : Nat) (l : XTable)
+    (acc : Outcome (LObjects × List Block)) (h : ∀ p, acc ≠ .ok p) :
+    ∀ p, l.foldl (loadStep buf x n) acc ≠ .ok p := by
+  induction l generalizing acc with
+  | nil => exact h
+  | cons e rest ih =>
+    simp only [List.foldl_cons]
+    apply ih
+    cases acc with
+    | ok p => exact absurd rfl (h p)
+    | err s => intro p hp; simp [loadStep] at hp
+    | panic s => intro p hp; simp [loadStep] at hp
+
+/-- the blocks collected while reading the objects are keyed by a sub-sequence of the
+cross-reference keys -/
+theorem loadStep_blocks (buf : Bytes) (x : XTable) (n : Nat) (l : XTable) :
+    ∀ (os : LObjects) (fs : List Block) (os' : LObjects) (fs' : List Block),
+    l.foldl (loadStep buf x n) (.ok (os, fs)) = .ok (os', fs') →
+    ∃ ks, fs'.map (·.1) = fs.map (·.1) ++ ks ∧ ks.Sublist (l.map (·.1)) := by
+  induction l with
+  | nil =>
+    intro os fs os' fs' h
+    simp only [List.foldl_nil, Outcome.ok.injEq, Prod.mk.injEq] at h
+    exact ⟨[], by simp [h.2], List.Sublist.refl _⟩
+  | cons e rest ih =>
+    intro os fs os' fs' h
+    simp only [List.foldl_cons] at h
+    rcases loadStep_shape buf x n os fs e with ⟨os2, h1⟩ | ⟨os2, objs, h1⟩ | h1
+    · rw [h1] at h
+      obtain ⟨ks, hk, hs⟩ := ih _ _ _ _ h
+      exact ⟨ks, hk, hs.trans (List.sublist_cons_self _ _)⟩
+    · rw [h1] at h
+      obtain ⟨ks, hk, hs⟩ := ih _ _ _ _ h
+      refine ⟨e.1 :: ks, ?_, ?_⟩
+      · rw [hk]; simp
+      · simpa using hs
+    · exact absurd h (loadStep_notok buf x n rest _ h1 _)
+
+/-- the blocks of a load have pairwise different container numbers -/
+theorem fromStm_keys_nodup (buf : Bytes) (x : XTable) (n : Nat) (os : LObjects) (fs : List Block)
+    (h : (x.sorted).foldl (loadStep buf x n) (.ok ([], [])) = .ok (os, fs)) : DistinctKeys fs := by
+  obtain ⟨ks, hk, hs⟩ := loadStep_blocks buf x n _ _ _ _ _ h
+  unfold DistinctKeys
+  rw [hk]
+  simp only [List.map_nil, List.nil_append]
+  have : ks.Pairwise (· < ·) := (sorted_keys_lt x).sublist hs
+  exact this.imp (fun h => by omega)
+
+/-- **Schedule independence of `Reader::read`.** Whatever order the per-container blocks arrive
+in — `arr` is ANY function that permutes them — the loaded document is the document of the
+sequential reader. -/
+theorem load_schedule_independent (arr : List Block → List Block) (harr : ∀ bs, (arr bs).Perm bs)
+    (file : Bytes) : loadDocWith arr file = loadDocWith id file := by
+  have key : ∀ (buf : Bytes) (x : XTable) (n : Nat) (os : LObjects) (fs : List Block),
+      (x.sorted).foldl (loadStep buf x n) (.ok ([], [])) = .ok (os, fs) →
+      mergeBlocksX x os (arr fs) = mergeBlocksX x os fs := by
+    intro buf x n os fs h
+    have hd := fromStm_keys_nodup buf x n os fs h
+    exact (merge_schedule_independent x os fs (arr fs) (harr fs).symm hd).symm
+  unfold loadDocWith
+  simp only []
+  repeat' split
+  all_goals try rfl
+  all_goals rw [key _ _ _ _ _ (by assumption)]
+  all_goals rfl
+
+/-! ### hook H1 only permutes -/
+
+theorem filterMap_set_none (slots : List (Option Block)) (i : Nat) (b : Block)
+    (h : slots[i]? = some (some b)) :
+    (slots.filterMap id).Perm (b :: (slots.set i none).filterMap id) := by
+  induction slots generalizing i with
+  | nil => simp at h
+  | cons s t ih =>
+    cases i with
+    | zero =>
+      simp only [List.getElem?_cons_zero, Option.some.injEq] at h
+      subst h
+      simp
+    | succ j =>
+      simp only [List.getElem?_cons_succ] at h
+      have := ih j h
+      cases s with
+      | none => simpa using this
+      | some c =>
+        simp only [List.set_cons_succ, List.filterMap_cons, id]
+        exact (List.Perm.cons c this).trans (List.Perm.swap b c _)
+
+theorem permuteGo_perm (order : List Nat) : ∀ slots : List (Option Block),
+    (permuteGo slots order).Perm (slots.filterMap id) := by
+  induction order with
+  | nil => intro slots; exact List.Perm.refl _
+  | cons i rest ih =>
+    intro slots
+    unfold permuteGo
+    split
+    · rename_i b hb
+      exact (List.Perm.cons b (ih _)).trans (filterMap_set_none slots i b hb).symm
+    · exact ih slots
+
+/-- whatever order the harness passes through hook H1, the blocks are only permuted -/
+theorem permuteBlocks_perm (bs : List Block) (order : List Nat) : (permuteBlocks bs order).Perm bs := by
+  unfold permuteBlocks
+  refine (permuteGo_perm order _).trans ?_
+  have : ((sortBlocks bs).map some).filterMap id = sortBlocks bs := by
+    rw [List.filterMap_map]; simp
+  rw [this]
+  exact sortBlocks_perm bs
+
+/-- every arrival order that hook H1 can produce loads the document of the sequential reader -/
+theorem load_order_irrelevant (order : Option (List Nat)) (file : Bytes) :
+    loadDocOrd order file = loadDoc file := by
+  unfold loadDoc loadDocOrd
+  cases order with
+  | none => rfl
+  | some p => exact load_schedule_independent _ (fun bs => permuteBlocks_perm bs p) file
 
 end Lopdf
